@@ -260,8 +260,14 @@ def gen_cases(rng, tier):
         agg = rng.choice([None, 'last', 'last', 'first', 'len', 'sum'])
         cols = []
         ymode = rng.choice(['s', 's', 'i', 'mixed'])
+        dense = rng.random() < 0.3                                   # few (x, y) cells, many rows in each
+        if dense: n = rng.choice([5, 6, 8] if q else [6, 8, 12])
         for c in names:
-            if c == y:
+            if c == y and dense:
+                cells = [['s', rng.choice('ppq')] for _ in range(n)]
+            elif c in x and dense:
+                cells = V.rand_column(rng, n, 'bin')[1]
+            elif c == y:
                 cells = [['s', rng.choice('pqr')] if (ymode == 's' or (ymode == 'mixed' and rng.random() < 0.5)) else ['i', rng.randrange(0, 4)] for _ in range(n)]
             elif c == z:
                 cells = V.rand_column(rng, n, 'ints' if agg == 'sum' else rng.choice(['ints', 'mixed', 'nums', 'strs', 'none']))[1]
